@@ -1,14 +1,14 @@
 SPECIFICATION Spec
 CONSTANTS
   MaxH = 2
-  MaxRestarts = 1
-  FullNode = FALSE
+  MaxRestarts = 0
+  FullNode = TRUE
   Cap = 2
-  Weaken = "loadNoHeight"
+  Weaken = "saveErrNoBump"
   GapFix = FALSE
   CertRounds = {1}
   Direct = FALSE
   MidCrash = FALSE
   Timeouts = FALSE
-  MaxWriteFaults = 0
-INVARIANT RestartResumes
+  MaxWriteFaults = 1
+PROPERTY NoRerun
